@@ -1,3 +1,6 @@
--- This module serves as the root of the `Decay` library.
--- Import modules here that should be built as part of the library.
-import Decay.Basic
+-- Root of the `Decay` library (C09: decay and income valuation).
+import Decay.Model
+import Decay.Gen
+import Decay.Tie
+import Decay.Lemmas
+import Decay.Props
